@@ -286,6 +286,25 @@ def run(ctx):
 
     rule_absolute_indices(ctx, mir)
 
+    # ------------------------------------------------------------------ R04.9
+    r = ctx.rule("R04.9", "an+b: NthChild::has_index agrees with `exists n >= 0: step*n + offset == index` on the sign domain — abstract interpretation of the expanded source over signs of (index - offset, step): a definite answer of the code must be a possible answer of the definition", "E-AST (abstract interpretation, sign domain)", floor=9)
+    from ..signeval import SignEval, NEG, ZERO, POS
+    hi = idx.one("has_index", owner="NthChild")
+    REF = {  # (sign of step, sign of index-offset) -> possible truth values of `exists n>=0: step*n == index-offset`
+        (ZERO, ZERO): {True}, (ZERO, NEG): {False}, (ZERO, POS): {False},
+        (POS, NEG): {False}, (POS, ZERO): {True}, (POS, POS): {True, False},
+        (NEG, POS): {False}, (NEG, ZERO): {True}, (NEG, NEG): {True, False},
+    }
+    lets = [st["pat"].get("name") for st in hi.node["body"] if st.get("k") == "Local" and st["pat"].get("k") == "PIdent"]
+    diff_name = "offsetted" if "offsetted" in lets else (lets[0] if lets else None)
+    for (st_, off), want in sorted(REF.items()):
+        got = SignEval(havoc={diff_name: frozenset([off]), "step": frozenset([st_])}).run(hi.node["body"], {}) if diff_name else None
+        got = set(got) if got else {True, False}
+        key = "step=%s|index-offset=%s" % (st_, off)
+        r.inst(key, sample={"step": st_, "index_minus_offset": off, "code": sorted(got), "definition": sorted(want)})
+        if not (got & want):
+            r.violate(key, f"NthChild::has_index answers {sorted(got)} when step is {st_} and index - offset is {off}; by `exists n >= 0: step*n + offset == index` the answer is {sorted(want)}" + (" (n = 0: `:nth-child(-n+3)` must match the 3rd child)" if off == ZERO else ""), "src/selectors_vm/ast.rs")
+
     # ------------------------------------------------------------------ R04.8
     r = ctx.rule("R04.8", "combinator routing agrees across the three layers: `>` fills AstNode.children and ` ` fills AstNode.descendants (Ast::add_selector); the compiler turns children into ExecutionBranch.jumps and descendants into hereditary_jumps; the VM stores them in the like-named StackItem fields, tries `jumps` of the parent (last stack item) only and `hereditary_jumps` of every open ancestor (Stack::active_hereditary_jumps, fed by push_item from the pushed item's hereditary_jumps)", "E-AST + E-MIR field flow", floor=7)
     ads = idx.one("add_selector", owner="Ast")
